@@ -9,12 +9,16 @@ import (
 	"context"
 	"encoding/binary"
 	"fmt"
+	keystorev4 "github.com/wealdtech/go-eth2-wallet-encryptor-keystorev4"
+	nd "github.com/wealdtech/go-eth2-wallet-nd/v2"
+	filesystem "github.com/wealdtech/go-eth2-wallet-store-filesystem"
 	"math/big"
 	"os"
 	"runtime"
 	"sort"
 	"sync"
 	"sync/atomic"
+	"testing"
 	"time"
 
 	relaytypes "github.com/attestantio/go-block-relay/types"
@@ -348,6 +352,41 @@ func scenarioCache(c *harness.Ctx, rep int) {
 			}
 		},
 	)
+	// Second part: block events of the current slots while the cleaner runs over a cache holding many old
+	// entries.  Every root a block event reported inside the retention window must afterwards be answered
+	// from the cache with the event's slot (the fake node would answer 66): what the handler stored may not
+	// be undone by a cleaning pass that overlapped it.
+	const base = 8 * 400
+	clock.SetSlot(base)
+	for i := 0; i < 20000; i++ {
+		ev.Emit("block", &apiv1.BlockEvent{Slot: phase0.Slot(base - 100 + i%100), Block: root(30000 + i)}) // kept by the cleaner: its passes stay long
+	}
+	stop.Store(false)
+	const fresh = 2000
+	par(
+		func() {
+			for i := 0; i < fresh; i++ {
+				ev.Emit("block", &apiv1.BlockEvent{Slot: phase0.Slot(base + i), Block: root(100 + i)})
+				if i%8 == 0 {
+					time.Sleep(50 * time.Microsecond)
+				}
+			}
+			stop.Store(true)
+		},
+		func() {
+			for !stop.Load() {
+				sched.RunSync("Clean block root to slot cache")
+			}
+		},
+	)
+	for i := 0; i < fresh; i++ {
+		got, err := s.BlockRootToSlot(bg, root(100+i))
+		c.Count("cache_fresh_entries_judged", 1)
+		if err != nil || got != phase0.Slot(base+i) {
+			c.Violate("non-sequential-result:cache-entry-lost-to-cleaning", fmt.Sprintf("a block event stored root #%d at slot %d (current slot %d, inside the 64-epoch retention) while the cleaner ran; afterwards the cache answers slot %d err %v: the stored entry was lost", i, base+i, base, got, err), c.CaseID(fmt.Sprintf("cache#%d", rep)), nil)
+			return
+		}
+	}
 }
 
 // ---- account managers and validators manager ----
@@ -378,23 +417,50 @@ type manager interface {
 
 func scenarioAccounts(c *harness.Ctx, rep int) {
 	kind := []string{"dirk", "wallet"}[rep%2]
-	var list []e2wtypes.Account
-	var accts []harness.Acct
-	for k := 0; k < 16; k++ {
-		ak := harness.KindMulti
-		if kind == "wallet" {
-			ak = harness.KindPlain
+	walletNames := []string{"W", "X", "Y"}
+	lists := make([][]e2wtypes.Account, 3)
+	var pubs []phase0.BLSPubKey
+	dir, _ := os.MkdirTemp("", "verif-c17-")
+	defer os.RemoveAll(dir)
+	if kind == "dirk" {
+		for k := 0; k < 16; k++ {
+			// the accounts sit in three wallets, as they do for an operator with several
+			a := harness.NewAcct(harness.KindMulti, walletNames[k%3], fmt.Sprintf("c%d", k), 2400+k, 0, nil)
+			pubs = append(pubs, a.Pub48())
+			lists[k%3] = append(lists[k%3], a)
 		}
-		a := harness.NewAcct(ak, "W", fmt.Sprintf("c%d", k), 2400+k, 0, nil)
-		accts = append(accts, a)
-		list = append(list, a)
+	} else {
+		// real wallets in a real filesystem store, so that the manager's own refresh opens and reads them
+		store := filesystem.New(filesystem.WithLocation(dir))
+		enc := keystorev4.New(keystorev4.WithCost(&testing.T{}, 4))
+		for i, n := range walletNames {
+			w, err := nd.CreateWallet(bg, n, store, enc)
+			if err != nil {
+				c.Inconclusive(err.Error())
+				return
+			}
+			if err := w.(e2wtypes.WalletLocker).Unlock(bg, nil); err != nil {
+				c.Inconclusive(err.Error())
+				return
+			}
+			for k := i; k < 16; k += 3 {
+				a, err := w.(e2wtypes.WalletAccountCreator).CreateAccount(bg, fmt.Sprintf("c%d", k), []byte("p"))
+				if err != nil {
+					c.Inconclusive(err.Error())
+					return
+				}
+				for len(pubs) <= k {
+					pubs = append(pubs, phase0.BLSPubKey{})
+				}
+				copy(pubs[k][:], a.PublicKey().Marshal())
+			}
+		}
 	}
-	w := harness.NewFWallet("W", list)
 	b := &beacon{records: map[phase0.BLSPubKey]*apiv1.Validator{}}
 	mk := func(lo, hi int) map[phase0.BLSPubKey]*apiv1.Validator {
 		out := map[phase0.BLSPubKey]*apiv1.Validator{}
 		for k := lo; k < hi; k++ {
-			out[accts[k].Pub48()] = &apiv1.Validator{Index: phase0.ValidatorIndex(5000 + k), Validator: &phase0.Validator{PublicKey: accts[k].Pub48(), EffectiveBalance: 32e9, ExitEpoch: farFuture, WithdrawableEpoch: farFuture}}
+			out[pubs[k]] = &apiv1.Validator{Index: phase0.ValidatorIndex(5000 + k), Validator: &phase0.Validator{PublicKey: pubs[k], EffectiveBalance: 32e9, ExitEpoch: farFuture, WithdrawableEpoch: farFuture}}
 		}
 		return out
 	}
@@ -406,32 +472,34 @@ func scenarioAccounts(c *harness.Ctx, rep int) {
 	clock := harness.NewVClock(12*time.Second, 32)
 	var mgr manager
 	var refresh func()
+	rounds := 150
 	if kind == "dirk" {
 		s, err := dirk.New(bg, dirk.WithLogLevel(zerolog.Disabled), dirk.WithMonitor(nullmetrics.New()), dirk.WithClientMonitor(nullmetrics.New()), dirk.WithProcessConcurrency(2),
-			dirk.WithEndpoints([]string{"localhost:1"}), dirk.WithAccountPaths([]string{"W"}), dirk.WithClientCert([]byte(resources.ClientTest01Crt)), dirk.WithClientKey([]byte(resources.ClientTest01Key)),
+			dirk.WithEndpoints([]string{"localhost:1"}), dirk.WithAccountPaths(walletNames), dirk.WithClientCert([]byte(resources.ClientTest01Crt)), dirk.WithClientKey([]byte(resources.ClientTest01Key)),
 			dirk.WithCACert([]byte(resources.CACrt)), dirk.WithValidatorsManager(vm), dirk.WithDomainProvider(harness.RecDomains{}), dirk.WithFarFutureEpochProvider(mock.NewFarFutureEpochProvider(farFuture)), dirk.WithCurrentEpochProvider(clock))
 		if err != nil {
 			c.Inconclusive(err.Error())
 			return
 		}
-		s.VerifSetWallet("W", w)
+		for i, n := range walletNames {
+			s.VerifSetWallet(n, harness.NewFWallet(n, lists[i]))
+		}
 		mgr, refresh = s, func() { s.Refresh(bg) }
 	} else {
-		dir, _ := os.MkdirTemp("", "verif-c17-")
-		defer os.RemoveAll(dir)
-		s, err := wallet.New(bg, wallet.WithLogLevel(zerolog.Disabled), wallet.WithMonitor(nullmetrics.New()), wallet.WithProcessConcurrency(2), wallet.WithLocations([]string{dir}), wallet.WithAccountPaths([]string{"W"}),
+		s, err := wallet.New(bg, wallet.WithLogLevel(zerolog.Disabled), wallet.WithMonitor(nullmetrics.New()), wallet.WithProcessConcurrency(2), wallet.WithLocations([]string{dir}), wallet.WithAccountPaths(walletNames),
 			wallet.WithPassphrases([][]byte{[]byte("p")}), wallet.WithValidatorsManager(vm), wallet.WithSpecProvider(harness.NewSpec(32, nil)), wallet.WithFarFutureEpochProvider(mock.NewFarFutureEpochProvider(farFuture)),
 			wallet.WithDomainProvider(harness.RecDomains{}), wallet.WithCurrentEpochProvider(clock))
 		if err != nil {
 			c.Inconclusive(err.Error())
 			return
 		}
-		mgr, refresh = s, func() { s.VerifRefreshFromWallets(bg, []e2wtypes.Wallet{w}) }
+		mgr, refresh = s, func() { s.Refresh(bg) }
+		rounds = 60
 	}
 	var stop atomic.Bool
 	par(
 		func() { // the periodic accounts refresher
-			for i := 0; i < 150; i++ {
+			for i := 0; i < rounds; i++ {
 				b.mu.Lock()
 				if i%2 == 0 {
 					b.records = mk(0, 12)
@@ -462,7 +530,7 @@ func scenarioAccounts(c *harness.Ctx, rep int) {
 						ok = false
 					}
 				}
-				c.Count("account_lookups_judged", 1)
+				c.Count("account_lookups_judged_"+kind, 1)
 				if !ok {
 					c.Violate("non-sequential-result:"+kind+"-validating-accounts", fmt.Sprintf("ValidatingAccountsForEpoch during refreshes that alternate between validators 0-11 and 4-15 returned %v: the set no refresh ever published", idx), c.CaseID(fmt.Sprintf("account-managers#%d", rep)), nil)
 					return
@@ -472,7 +540,7 @@ func scenarioAccounts(c *harness.Ctx, rep int) {
 		func() {
 			for i := 0; !stop.Load(); i++ {
 				_, _ = mgr.SyncCommitteeAccountsForEpoch(bg, 5)
-				_, _ = mgr.AccountByPublicKey(bg, accts[i%16].Pub48())
+				_, _ = mgr.AccountByPublicKey(bg, pubs[i%16])
 			}
 		},
 	)
